@@ -84,6 +84,7 @@ func historyCase(r *rand.Rand, hot int) Case {
 		}
 		tags = append(tags, "fns:local")
 	}
+	call.alt = chance(r, 0.5)
 	return call.toCase(tags, "")
 }
 
